@@ -1,1 +1,143 @@
-From ZV Require Import Lib.Base Model.Query.
+(** C05 - query rewriting preserves meaning.
+    Every rewrite applied to a query before evaluation selects exactly the same documents as the
+    original query: constant folding, flattening, Simplify, file/content expansion, case-scope
+    stripping and the per-shard simplification against repository metadata.
+    [eval e q d] is the reference evaluator of Model/Query.v; [e] ranges over ALL families of atom
+    predicates satisfying [atoms_ok] (empty substring pattern / OpEmptyMatch regexp / empty
+    non-exact branch pattern match every document), [q] over ALL query trees, [d] over all
+    documents. *)
+From ZV Require Import Lib.Base Model.Query Model.QueryStd.
+From ZV Require Import Proofs.QueryInd Proofs.QuerySimplify Proofs.QueryShard Proofs.QueryTerm Proofs.QueryStdOk.
+
+(** constant folding (evalConstants, evalAndOrConstants, invertConst) *)
+Theorem C05_evalConstants_preserves :
+  forall (D : Type) (e : atoms D) (q : Q) (d : D),
+    atoms_ok e -> eval e (evalConstants q) d = eval e q d.
+Proof. intros D e q d H. now apply evalConstants_preserves. Qed.
+Print Assumptions C05_evalConstants_preserves.
+
+(** one round of flatten (needs no hypothesis on the atoms) *)
+Theorem C05_flatten_preserves :
+  forall (D : Type) (e : atoms D) (q : Q) (d : D), eval e (fst (flatten q)) d = eval e q d.
+Proof. intros. apply flatten_preserves. Qed.
+Print Assumptions C05_flatten_preserves.
+
+(** query.Simplify = evalConstants, then flatten until nothing changes *)
+Theorem C05_Simplify_preserves :
+  forall (D : Type) (e : atoms D) (q : Q) (d : D),
+    atoms_ok e -> eval e (Simplify q) d = eval e q d.
+Proof. intros D e q d H. now apply Simplify_preserves. Qed.
+Print Assumptions C05_Simplify_preserves.
+
+(** The flatten loop of Simplify terminates: the model's fuel is never exhausted, the result is
+    the fixpoint at which Go's unbounded loop exits (each changed round removes an And/Or node). *)
+Theorem C05_Simplify_reaches_fixpoint : forall q : Q, flatten (Simplify q) = (Simplify q, false).
+Proof. exact Simplify_fixpoint. Qed.
+Print Assumptions C05_Simplify_reaches_fixpoint.
+
+Theorem C05_flatten_changed_decreases :
+  forall q : Q, snd (flatten q) = true -> nao (fst (flatten q)) < nao q.
+Proof. exact flatten_decreases. Qed.
+Print Assumptions C05_flatten_changed_decreases.
+
+(** query.Map with any node function that preserves the meaning of the node it is given *)
+Theorem C05_Map_preserves :
+  forall (D : Type) (e : atoms D) (d : D) (f : Q -> Q),
+    (forall q, eval e (f q) d = eval e q d) -> forall q, eval e (qmap f q) d = eval e q d.
+Proof. intros D e d f H q. now apply qmap_preserves. Qed.
+Print Assumptions C05_Map_preserves.
+
+(** query.Map(q, query.ExpandFileContent) *)
+Theorem C05_expand_preserves :
+  forall (D : Type) (e : atoms D) (q : Q) (d : D), eval e (qmap ExpandFileContent q) d = eval e q d.
+Proof. intros. apply expand_preserves. Qed.
+Print Assumptions C05_expand_preserves.
+
+(** parse.go: stripCaseScopes (case scopes select the documents of their child) *)
+Theorem C05_stripCaseScopes_preserves :
+  forall (D : Type) (e : atoms D) (q : Q) (d : D), eval e (stripCaseScopes q) d = eval e q d.
+Proof. intros. apply stripCaseScopes_preserves. Qed.
+Print Assumptions C05_stripCaseScopes_preserves.
+
+(** indexData.simplify: for every shard metadata set (live and tombstoned repositories, any
+    LanguageMap), every regexp engine, every tree, and every document of a repository that is not
+    tombstoned (the only documents Search evaluates the query on). *)
+Theorem C05_shard_simplify_preserves :
+  forall (re_match : str -> str -> bool) (D : Type) (base : atoms D) (sh : shard) (repo_of : D -> nat)
+         (q : Q) (d : D),
+    atoms_ok base -> langs_closed base sh d -> live sh repo_of d ->
+    eval (shard_atoms re_match base sh repo_of) (shard_simplify re_match sh q) d
+    = eval (shard_atoms re_match base sh repo_of) q d.
+Proof. exact shard_simplify_preserves. Qed.
+Print Assumptions C05_shard_simplify_preserves.
+
+(** the rewrite pipeline of indexData.Search: simplify, then Map(ExpandFileContent) *)
+Theorem C05_search_pipeline_preserves :
+  forall (re_match : str -> str -> bool) (D : Type) (base : atoms D) (sh : shard) (repo_of : D -> nat)
+         (q : Q) (d : D),
+    atoms_ok base -> langs_closed base sh d -> live sh repo_of d ->
+    eval (shard_atoms re_match base sh repo_of) (qmap ExpandFileContent (shard_simplify re_match sh q)) d
+    = eval (shard_atoms re_match base sh repo_of) q d.
+Proof.
+  intros. rewrite expand_preserves. now apply shard_simplify_preserves.
+Qed.
+Print Assumptions C05_search_pipeline_preserves.
+
+(** ---------------------------------------------------------------- non-vacuity *)
+
+(** the hypotheses are satisfied by the concrete reference semantics (substring search, any regexp
+    engine) that the Go oracle implements *)
+Example C05_atoms_ok_inhabited : forall rx_match, atoms_ok (std_atoms rx_match).
+Proof. exact std_atoms_ok. Qed.
+
+Definition ex_s (l : list N) : str := l.
+Definition ex_foo : str := [102; 111; 111]%N.
+Definition ex_main : str := [109; 97; 105; 110]%N.
+Definition ex_doc : cdoc :=
+  {| cd_repo := 1; cd_name := [97; 46; 103; 111]%N; cd_content := ex_foo ++ [32]%N ++ ex_main;
+     cd_branch0 := ex_main; cd_branches := []; cd_lang := [71; 111]%N |}.
+Definition ex_shard : shard :=
+  {| sh_repos := [ {| r_tomb := true; r_id := 1; r_name := ex_main; r_rc := 42; r_meta := [] |};
+                   {| r_tomb := false; r_id := 2; r_name := ex_foo; r_rc := 21; r_meta := [] |} ];
+     sh_langs := [[71; 111]%N] |}.
+Definition ex_tomb_doc : cdoc :=
+  {| cd_repo := 0; cd_name := []; cd_content := []; cd_branch0 := ex_main; cd_branches := []; cd_lang := [71; 111]%N |}.
+Definition ex_re (re s : str) : bool := contains re s.
+Definition ex_rx (re : rx) (cs : bool) (s : str) : bool := contains (rx_src re) s.
+
+(** degenerate shapes really are folded / flattened, and to non-trivial results *)
+Example C05_ex_simplify_shapes :
+  Simplify (QAnd [QAnd [QSubstring ex_foo true false false; QConst true]; QNot (QConst false); QAnd []; QOr [QOr [QLanguage ex_main]]])
+  = QAnd [QSubstring ex_foo true false false; QLanguage ex_main]
+  /\ Simplify (QNot (QType 1 (QOr [QConst false; QSubstring [] false true false]))) = QConst false
+  /\ Simplify (QAnd []) = QConst true /\ Simplify (QOr []) = QConst false
+  /\ Simplify (QBoost 3 (QAnd [QRepoIDs []; QRepo ex_foo])) = QConst false
+  /\ Simplify (QBranch [] true) = QBranch [] true.
+Proof. vm_compute. repeat split. Qed.
+
+(** the per-shard theorem applies to a live document, and the rewrite does something there:
+    repo:foo holds for every live repository of ex_shard, so it becomes TRUE *)
+Example C05_ex_shard :
+  live ex_shard cd_repo ex_doc /\ langs_closed (std_atoms ex_rx) ex_shard ex_doc /\
+  shard_simplify ex_re ex_shard (QAnd [QRepo ex_foo; QSubstring ex_main false false false]) = QSubstring ex_main false false false /\
+  eval (shard_atoms ex_re (std_atoms ex_rx) ex_shard cd_repo) (QAnd [QRepo ex_foo; QSubstring ex_main false false false]) ex_doc = true.
+Proof.
+  split; [|split; [|split]].
+  - exists {| r_tomb := false; r_id := 2; r_name := ex_foo; r_rc := 21; r_meta := [] |}. split; reflexivity.
+  - apply std_langs_closed. reflexivity.
+  - vm_compute. reflexivity.
+  - vm_compute. reflexivity.
+Qed.
+
+(** the [live] hypothesis is necessary: on a document of the tombstoned repository the same
+    rewrite changes the verdict (this is sound only because Search skips such documents) *)
+Example C05_ex_live_needed :
+  eval (shard_atoms ex_re (std_atoms ex_rx) ex_shard cd_repo) (shard_simplify ex_re ex_shard (QRepo ex_foo)) ex_tomb_doc = true /\
+  eval (shard_atoms ex_re (std_atoms ex_rx) ex_shard cd_repo) (QRepo ex_foo) ex_tomb_doc = false.
+Proof. vm_compute. split; reflexivity. Qed.
+
+(** the rule repaired by /repo commit 786e57e: folding an EXACT branch query with empty pattern to
+    TRUE (what evalConstants did before) does not preserve meaning - no branch is named "" *)
+Example C05_ex_exact_empty_branch_is_not_true :
+  eval (std_atoms ex_rx) (QBranch [] true) ex_doc = false /\ eval (std_atoms ex_rx) (QConst true) ex_doc = true.
+Proof. vm_compute. split; reflexivity. Qed.
